@@ -1,7 +1,163 @@
-(* C07 placeholder (being filled) *)
+(* C07 — NAS ciphering and integrity algorithms are the 3GPP 128-NEA/NIA algorithms.
+   Statements only; proofs live in Proofs/Snow3gProofs.v, Proofs/SecProofs.v, Proofs/SecNia1.v, Proofs/SecAesLen.v.
+   Model: Model/Snow3g.v, Model/Security.v (the Go code).  Specification: Spec/Snow3gSpec.v (TS 35.215/35.216),
+   Spec/TS33401B.v (TS 33.401 Annex B, TS 33.501 Annex D). *)
 From Coq Require Import NArith List Bool.
-Require Import Bytes AES Modes Snow3g Security Snow3gSpec TS33401B.
+Require Import Bytes AES Modes Snow3gTables Snow3g Security Snow3gSpec TS33401B.
+Require Import Snow3gBits Snow3gProofs SecAesLen SecProofs SecNia1.
 Import ListNotations.
 Open Scope N_scope.
-Example c07_placeholder : nas_encrypt 0 (repeat 0 16) 0 0 0 [1] = Some [1].
+
+(* ---- (a) the tables carried by snow3g.go are the algebraically defined S-boxes, all 256 entries *)
+Theorem c07_sbox_tables :
+  sr_table = map S_R_alg (map N.of_nat (seq 0 256)) /\ sq_table = map S_Q_alg (map N.of_nat (seq 0 256)).
+Proof. exact (conj sr_table_is_S_R sq_table_is_S_Q). Qed.
+Print Assumptions c07_sbox_tables.
+
+(* MULalpha / DIValpha as the code computes them (mulxPow recursion on bytes), all 256 arguments *)
+Theorem c07_mulalpha_divalpha :
+  forall c, c < 256 -> mulAlpha c = MULalpha c /\ divAlpha c = DIValpha c.
+Proof. intros c H. exact (conj (mulAlpha_is_MULalpha c H) (divAlpha_is_DIValpha c H)). Qed.
+Print Assumptions c07_mulalpha_divalpha.
+
+(* ---- (b) InitSnow3g + GenerateKeystream on the package state = the keystream of TS 35.216,
+   for every previous state, key words, IV words and number of words *)
+Theorem c07_snow3g_model_is_spec :
+  forall st k iv n, snd (GenerateKeystream (InitSnow3g st k iv) n) = snow3g_keystream k iv n.
+Proof. exact snow3g_model_is_spec. Qed.
+Print Assumptions c07_snow3g_model_is_spec.
+
+(* ---- (c) NEA1 as called by NASEncrypt (length = 8 * len) is 128-EEA1 for EVERY message length
+   (empty included), any key octets, COUNT, BEARER < 32, DIRECTION < 2.  The bound is where uint32(len)*8+31 wraps. *)
+Theorem c07_nea1_is_eea1 :
+  forall st ck count bearer dir ibs,
+    bearer < 32 -> dir < 2 -> N.of_nat (length ibs) < 536870909 ->
+    snd (NEA1 st ck count bearer dir ibs (8 * N.of_nat (length ibs))) = SOk (eea1 ck count bearer dir ibs).
+Proof. exact NEA1_is_eea1. Qed.
+Print Assumptions c07_nea1_is_eea1.
+
+(* the same, spelled with the keystream octets: output = msg xor (first |msg| octets of the SNOW 3G keystream) *)
+Theorem c07_nea1_is_xor_with_keystream :
+  forall st ck count bearer dir ibs,
+    bearer < 32 -> dir < 2 -> N.of_nat (length ibs) < 536870909 ->
+    snd (NEA1 st ck count bearer dir ibs (8 * N.of_nat (length ibs)))
+    = SOk (xor_bytes ibs (firstn (length ibs)
+             (words_to_bytes (snow3g_keystream (key_words ck) (f8_iv count bearer dir) (Nat.div (length ibs + 3) 4))))).
+Proof. exact NEA1_is_xor_firstn. Qed.
+Print Assumptions c07_nea1_is_xor_with_keystream.
+
+(* ---- (d) NEA2 = 128-EEA2, NIA2 = 128-EIA2 for any block cipher *)
+Theorem c07_nea2_is_eea2 :
+  forall (E:bytes -> bytes -> bytes) key count bearer dir ibs,
+    bearer < 32 -> dir < 2 -> NEA2 E key count bearer dir ibs = SOk (eea2 E key count bearer dir ibs).
+Proof. exact NEA2_is_eea2. Qed.
+Print Assumptions c07_nea2_is_eea2.
+
+Theorem c07_nia2_is_eia2 :
+  forall (E:bytes -> bytes -> bytes) key count bearer dir msg,
+    bearer < 32 -> dir < 2 -> NIA2 E key count bearer dir msg = SOk (eia2 E key count bearer dir msg).
+Proof. exact NIA2_is_eia2. Qed.
+Print Assumptions c07_nia2_is_eia2.
+
+(* ---- (e) NIA1 as called by NASMacCalculate is 128-EIA1 for every non-empty message of octets *)
+Theorem c07_nia1_is_eia1 :
+  forall st ik count bearer dir msg,
+    bearer < 32 -> dir < 2 -> count < 4294967296 -> bytes_ok ik = true -> bytes_ok msg = true ->
+    msg <> [] -> N.of_nat (length msg) < 2305843009213693944 ->
+    snd (NIA1 st ik count bearer dir msg (8 * N.of_nat (length msg))) = SOk (eia1 ik count bearer dir msg).
+Proof. exact NIA1_is_eia1. Qed.
+Print Assumptions c07_nia1_is_eia1.
+
+(* ---- the entry points other modules use *)
+(* ciphering: identifiers 0, 1, 2 do what TS 33.501 Annex D says *)
+Theorem c07_nas_encrypt_is_spec :
+  forall alg key count bearer dir msg,
+    key_ok key = true -> alg <= 2 -> bearer < 32 -> dir < 2 -> N.of_nat (length msg) < 536870909 ->
+    nas_encrypt alg key count bearer dir msg = nea_spec aes128 alg key count bearer dir msg.
+Proof. exact nas_encrypt_is_spec. Qed.
+Print Assumptions c07_nas_encrypt_is_spec.
+
+(* integrity: identifiers 1 and 2 *)
+Theorem c07_nas_mac_is_spec :
+  forall alg key count bearer dir msg,
+    key_ok key = true -> bytes_ok key = true -> bytes_ok msg = true -> alg = 1 \/ alg = 2 ->
+    bearer < 32 -> dir < 2 -> count < 4294967296 -> msg <> [] -> N.of_nat (length msg) < 2305843009213693944 ->
+    nas_mac alg key count bearer dir msg = nia_spec aes128 alg key count bearer dir msg.
+Proof. exact nas_mac_is_spec. Qed.
+Print Assumptions c07_nas_mac_is_spec.
+
+(* NEA0 leaves the message unchanged *)
+Theorem c07_nea0_identity :
+  forall key count bearer dir msg,
+    key_ok key = true -> bearer < 32 -> dir < 2 -> nas_encrypt 0 key count bearer dir msg = Some msg.
+Proof. exact nas_encrypt_nea0_identity. Qed.
+Print Assumptions c07_nea0_identity.
+
+(* applying the cipher twice with the same parameters restores the input *)
+Theorem c07_cipher_involutive :
+  forall alg key count bearer dir msg ct,
+    key_ok key = true -> alg <= 2 -> bearer < 32 -> dir < 2 -> N.of_nat (length msg) < 536870909 ->
+    nas_encrypt alg key count bearer dir msg = Some ct -> nas_encrypt alg key count bearer dir ct = Some msg.
+Proof. exact nas_encrypt_involutive. Qed.
+Print Assumptions c07_cipher_involutive.
+
+(* every octet of the message is covered by keystream: the output has the length of the message and octet p is
+   msg[p] xor K[p], where K depends on key, COUNT, BEARER, DIRECTION and the length only and is long enough *)
+Theorem c07_every_octet_covered :
+  forall alg key count bearer dir msg,
+    key_ok key = true -> alg = 1 \/ alg = 2 -> bearer < 32 -> dir < 2 -> N.of_nat (length msg) < 536870909 ->
+    exists ct, nas_encrypt alg key count bearer dir msg = Some ct /\ length ct = length msg /\
+               (length msg <= length (nea_keystream alg key count bearer dir (length msg)))%nat /\
+               forall p, (p < length msg)%nat ->
+                         nth p ct 0 = N.lxor (nth p msg 0) (nth p (nea_keystream alg key count bearer dir (length msg)) 0).
+Proof. exact nas_encrypt_covers_every_octet. Qed.
+Print Assumptions c07_every_octet_covered.
+
+(* the result is a function of the arguments only: whatever earlier calls left in snow3g.lfsr / snow3g.fsm *)
+Theorem c07_state_independent :
+  (forall s s' ck count bearer dir ibs len,
+      snd (NEA1 s ck count bearer dir ibs len) = snd (NEA1 s' ck count bearer dir ibs len)) /\
+  (forall s s' ik count bearer dir msg len,
+      snd (NIA1 s ik count bearer dir msg len) = snd (NIA1 s' ik count bearer dir msg len)) /\
+  (forall E s s' alg key count bearer dir payload,
+      snd (NASEncrypt E s alg key count bearer dir payload) = snd (NASEncrypt E s' alg key count bearer dir payload)) /\
+  (forall E s s' alg key count bearer dir msg,
+      snd (NASMacCalculate E s alg key count bearer dir msg) = snd (NASMacCalculate E s' alg key count bearer dir msg)).
+Proof.
+  exact (conj NEA1_state_independent (conj NIA1_state_independent
+        (conj NASEncrypt_state_independent NASMacCalculate_state_independent))).
+Qed.
+Print Assumptions c07_state_independent.
+
+(* outside the claim: NEA3/NIA3, unknown identifiers, BEARER > 31, DIRECTION > 1 are refused with an error *)
+Theorem c07_refused :
+  forall alg key count bearer dir msg,
+    2 < alg \/ 31 < bearer \/ 1 < dir ->
+    nas_encrypt alg key count bearer dir msg = None /\ nas_mac alg key count bearer dir msg = None.
+Proof. intros. split; [apply nas_encrypt_refused | apply nas_mac_refused]; assumption. Qed.
+Print Assumptions c07_refused.
+
+(* ---- non-vacuity: the hypotheses are met by the published test data and the results are the published ones *)
+Example c07_hypotheses_met_eea2_set1 :
+  let key := ts33401_k1 in
+  key_ok key = true /\ bytes_ok key = true /\ 0x15 < 32 /\ 1 < 2 /\
+  nas_encrypt 2 key 0x398A59B4 0x15 1 [0x98;0x1B;0xA6;0x82;0x4C;0x1B;0xFB;0x1A] = Some [0xE9;0xFE;0xD8;0xA6;0x3D;0x15;0x53;0x04].
+Proof. cbv zeta. repeat split; vm_compute; reflexivity. Qed.
+Example c07_nea1_on_uea2_set1 :
+  key_ok uea2_ts1_key = true /\
+  option_map (firstn 99) (nas_encrypt 1 uea2_ts1_key 0x72A4F20F 0x0C 1 uea2_ts1_pt) = Some (firstn 99 uea2_ts1_ct).
+Proof. split; vm_compute; reflexivity. Qed.
+Example c07_nia2_on_eia2_set2 :
+  nas_mac 2 ts33401_k1 0x398A59B4 0x1A 1 [0x48;0x45;0x83;0xD5;0xAF;0xE0;0x82;0xAE] = Some [0xB9;0x37;0x87;0xE6].
 Proof. vm_compute. reflexivity. Qed.
+(* a length that is a multiple of four octets (the class the historical defect lived in) and a dirty previous state *)
+Example c07_len_multiple_of_4_dirty_state :
+  let k := ts33401_k1 in
+  snd (NASEncrypt aes128 (dirty_state zero_state) 1 k 5 1 0 (Some [0;0;0;0;0;0;0;0]))
+  = SOk (eea1 k 5 1 0 [0;0;0;0;0;0;0;0]) /\ eea1 k 5 1 0 [0;0;0;0;0;0;0;0] <> [0;0;0;0;0;0;0;0].
+Proof. cbv zeta. split; [vm_compute; reflexivity | vm_compute; discriminate]. Qed.
+Example c07_nia1_hypotheses_met :
+  let k := ts33401_k1 in let m := [1;2;3;4;5;6;7;8;9] in
+  key_ok k = true /\ bytes_ok k = true /\ bytes_ok m = true /\ m <> [] /\
+  nas_mac 1 k 7 3 1 m = Some (eia1 k 7 3 1 m).
+Proof. cbv zeta. repeat split; try (vm_compute; reflexivity). discriminate. Qed.
